@@ -227,6 +227,20 @@ def c18Step (st : C18St) (op impl : String) : C18St × String × String :=
             | _, none => setV acc "viol:apply-error"
           else acc
         (acc.st, " ".intercalate acc.out, acc.verdict)
+  | ["contract"] =>
+    -- the handlers' contract (`WK.C18.MutateContract`), judged per command on the real handlers:
+    -- token = kind:outcome:reason:(kept|CHANGED|-):(indep|DEP)
+    let bad := (fields impl).findSome? fun t =>
+      match t.splitOn ":" with
+      | [kind, o, _, kept, indep] =>
+        if (o == "N" || o == "R") && kept ≠ "kept" then some s!"viol:handler-contract:{kind}:noop-or-reject-changed-the-candidate"
+        else if indep ≠ "indep" then some s!"viol:handler-contract:{kind}:outcome-depends-on-the-published-state"
+        else if !(["C", "U", "N", "R"].contains o) then some s!"viol:handler-contract:{kind}:malformed-result"
+        else none
+      | ["undecodable"] => none
+      | ["empty"] => none
+      | _ => some "viol:handler-contract:unparseable"
+    (st, "-", bad.getD "ok")
   | _ => (st, "bad-op", "ok")
 
 def main : IO Unit := Drv.main { init := ({} : C18St), step := c18Step }
